@@ -449,7 +449,12 @@ func (in *Interp) vsIntrinsic(name string, fn *ssa.Function, a []Value) (Value, 
 		if !nT.IsConst() {
 			in.unsupported("vsChoose with symbolic n")
 		}
-		k := in.choose(int(nT.Uint64()))
+		var k int
+		if pv, ok := in.Cfg.Pinned[u]; ok {
+			k = int(pv.Int64()) // replay: the recorded choice, no fork
+		} else {
+			k = in.choose(int(nT.Uint64()))
+		}
 		in.choiceLog[u] = k
 		return BV{in.i64(int64(k))}, true
 	case "vsAssume":
